@@ -13,12 +13,25 @@ Theorem C19_server_admits_only_authenticated : forall s c p,
 Proof. exact server_admits_only_authenticated. Qed.
 Print Assumptions C19_server_admits_only_authenticated.
 
-(* As a client: additionally the server certificate must match the configured name, and the trust pool is the
-   configured CA (never the system roots) whenever a peer is admitted. *)
+(* As a client with a CA file configured: additionally the server certificate must match the configured name, and the trust
+   anchor is the configured CA alone. *)
 Theorem C19_client_admits_only_authenticated : forall s c p,
-  client_build s = Built c -> sh_skip s = false -> client_admits c p = true -> good_server_peer p = true /\ sh_ca s = true.
+  client_build s = Built c -> sh_skip s = false -> sh_ca s = true -> client_admits c p = true -> good_server_peer p = true.
 Proof. exact client_admits_only_authenticated. Qed.
 Print Assumptions C19_client_admits_only_authenticated.
+
+(* ... so a server that does not chain to the configured CA is refused whatever the host's trust store says about it *)
+Theorem C19_configured_ca_excludes_host_store : forall s c p,
+  client_build s = Built c -> sh_skip s = false -> sh_ca s = true -> p_chain p = false -> client_admits c p = false.
+Proof. exact configured_ca_excludes_host_store. Qed.
+Print Assumptions C19_configured_ca_excludes_host_store.
+
+(* For every client shape (with or without a CA file) an admitted server is authenticated by the trust anchor in force: the
+   configured CA, or - no CA file given - the host's trust store. *)
+Theorem C19_client_admits_only_anchor_authenticated : forall s c p,
+  client_build s = Built c -> sh_skip s = false -> client_admits c p = true -> good_server_peer_for s p = true.
+Proof. exact client_admits_only_authenticated_for. Qed.
+Print Assumptions C19_client_admits_only_anchor_authenticated.
 
 (* Disabling verification explicitly is the only way to relax this. *)
 Theorem C19_only_skip_relaxes_server : forall s c p,
@@ -27,7 +40,7 @@ Proof. exact only_skip_relaxes_server. Qed.
 Print Assumptions C19_only_skip_relaxes_server.
 
 Theorem C19_only_skip_relaxes_client : forall s c p,
-  client_build s = Built c -> client_admits c p = true -> good_server_peer p = false -> sh_skip s = true.
+  client_build s = Built c -> client_admits c p = true -> good_server_peer_for s p = false -> sh_skip s = true.
 Proof. exact only_skip_relaxes_client. Qed.
 Print Assumptions C19_only_skip_relaxes_client.
 
@@ -39,6 +52,6 @@ Print Assumptions C19_verifying_server_has_the_ca.
 (* the configuration before the "fix:" commit for F9 (RequireAnyClientCert) admitted a self-signed client *)
 Theorem C19_refuted_before_fix :
   server_admits {| sc_auth := RequireAnyClientCert; sc_cas := true; sc_has_cert := true; sc_custom_time := false; sc_hooks_reject := false |}
-                {| p_presents := true; p_chain := false; p_time := true; p_usage := true; p_name := false |} = true.
+                {| p_presents := true; p_chain := false; p_host := false; p_time := true; p_usage := true; p_name := false |} = true.
 Proof. exact require_any_admits_self_signed. Qed.
 Print Assumptions C19_refuted_before_fix.
